@@ -323,6 +323,28 @@ def _sp_post(ctx):
     elif not (0 < nlen <= len(ss) / rate + 1e-9):
         REC.violation(PROP, "splice", "audioSplice", case, "the new interval lasts %r s, the splice segment %r s" % (nlen, len(ss) / rate), sig, mech)
         return
+    elif stop is None and fresh:
+        # with alignment and nothing replaced: audio and text stay in step - the samples before the new interval are the recording's
+        # first samples, the samples after it the rest of the recording, and what lies between lasts as long as the new interval
+        i0, i1 = round(new[0][0] * rate), round(new[0][1] * rate)
+        if abs(new[0][0] * rate - i0) < 1e-6 and abs(new[0][1] * rate - i1) < 1e-6 and 0 <= i0 <= i1 <= len(sa2):
+            if len(sa2) - (i1 - i0) != len(sa) or sa2[:i0] != sa[:i0] or sa2[i1:] != sa[i0:]:
+                REC.violation(PROP, "splice", "audioSplice", case, "the new interval [%r, %r] does not cover the inserted audio: around it the result holds %d + %d samples of the recording's %d, or other samples" % (
+                    new[0][0], new[0][1], i0, len(sa2) - i1, len(sa)), sig, mech)
+                return
+            classes.append("C18:splice:aligned-audio-in-step")
+        # a boundary that lay exactly on the requested insertion point moves with it: the entry that ended there ends where the new
+        # audio begins (it is neither cut short of it nor stretched over it)
+        for ts, tr in zip(s["tiers"], r["tiers"]):
+            if ts["t"] != "I":
+                continue
+            for idx, e in enumerate(ts["entries"]):
+                if e[1] == start and idx < len(tr["entries"]) and tr["entries"][idx][-1] == e[-1]:
+                    classes.append("C18:splice:aligned:boundary-on-the-insertion-point")
+                    if abs(tr["entries"][idx][1] - new[0][0]) > 1e-9:
+                        REC.violation(PROP, "splice", "audioSplice", case, "tier %r: the entry %r ended on the insertion point; it now ends at %r while the inserted audio begins at %r" % (
+                            ts["name"], e, tr["entries"][idx][1], new[0][0]), sig, mech)
+                        return
     for ts, tr in zip(s["tiers"], r["tiers"]):
         before = [tuple(e) for e in ts["entries"] if e[-2] < start - (0 if not align else 1e18)] if not align else []
         if not align:
